@@ -17,6 +17,9 @@ use domain::rdata::A;
 use std::str::FromStr;
 
 const NAMES: [&str; 3] = ["www.example.com.", "mail.example.com.", "a.www.example.com."];
+/// names one of which *begins* with the labels of another (a compressor that files names by their leading labels
+/// must forget `example.org.` when a failed push is rolled back although `example.` stays), and an unrelated one
+const NAMES_PREFIX: [&str; 3] = ["example.", "example.org.", "bar.test."];
 
 #[derive(Clone, Copy, Debug)]
 enum Op {
@@ -24,7 +27,8 @@ enum Op {
     Limited(usize, usize),
 }
 
-fn run<T: Composer>(what: &str, target: T, seq: &[Op]) -> Result<(), String> {
+fn run<T: Composer>(what: &str, target: T, seq: &[Op], names: &[&str; 3]) -> Result<(), String> {
+
     let mut mb = MessageBuilder::from_target(target).map_err(|_| "from_target".to_string())?;
     mb.header_mut().set_id(1);
     let mut q = mb.question();
@@ -34,10 +38,10 @@ fn run<T: Composer>(what: &str, target: T, seq: &[Op]) -> Result<(), String> {
     for op in seq {
         let before = a.as_slice().to_vec();
         let (i, ok) = match *op {
-            Op::Push(i) => (i, a.push((Name::<Vec<u8>>::from_str(NAMES[i]).unwrap(), 30, A::from_octets(10, 0, 0, i as u8))).is_ok()),
+            Op::Push(i) => (i, a.push((Name::<Vec<u8>>::from_str(names[i]).unwrap(), 30, A::from_octets(10, 0, 0, i as u8))).is_ok()),
             Op::Limited(i, k) => {
                 a.set_push_limit(before.len() + k);
-                let r = a.push((Name::<Vec<u8>>::from_str(NAMES[i]).unwrap(), 30, A::from_octets(10, 0, 0, i as u8))).is_ok();
+                let r = a.push((Name::<Vec<u8>>::from_str(names[i]).unwrap(), 30, A::from_octets(10, 0, 0, i as u8))).is_ok();
                 a.clear_push_limit();
                 (i, r)
             }
@@ -59,7 +63,7 @@ fn run<T: Composer>(what: &str, target: T, seq: &[Op]) -> Result<(), String> {
         let r = r.map_err(|e| format!("[{}] record does not parse: {}; message {:02x?}", what, e, bytes))?;
         got.push((r.owner().to_string(), r.data().addr().octets()[3] as usize));
     }
-    let want: Vec<(String, usize)> = model.iter().map(|&i| (NAMES[i].trim_end_matches('.').to_string(), i)).collect();
+    let want: Vec<(String, usize)> = model.iter().map(|&i| (names[i].trim_end_matches('.').to_string(), i)).collect();
     if got != want {
         return Err(format!("[{}] pushed {:?} but the message reads back as {:?}; message {:02x?}", what, want, got, bytes));
     }
@@ -159,15 +163,18 @@ fn main() {
             n += 1;
             let s = seq.clone();
             let r = std::panic::catch_unwind(move || {
-                run("no compressor", Vec::<u8>::new(), &s)?;
-                run("StaticCompressor", StaticCompressor::new(Vec::<u8>::new()), &s)?;
-                run("TreeCompressor", TreeCompressor::new(Vec::<u8>::new()), &s)?;
-                run("HashCompressor", HashCompressor::new(Vec::<u8>::new()), &s)
+                for names in [&NAMES, &NAMES_PREFIX] {
+                    run("no compressor", Vec::<u8>::new(), &s, names)?;
+                    run("StaticCompressor", StaticCompressor::new(Vec::<u8>::new()), &s, names)?;
+                    run("TreeCompressor", TreeCompressor::new(Vec::<u8>::new()), &s, names)?;
+                    run("HashCompressor", HashCompressor::new(Vec::<u8>::new()), &s, names)?;
+                }
+                Ok::<(), String>(())
             });
             match r {
                 Ok(Ok(())) => {}
                 Ok(Err(e)) => {
-                    println!("FAILING INPUT: answer pushes {:?} (owners {:?})\n{}", seq, NAMES, e);
+                    println!("FAILING INPUT: answer pushes {:?} (owners {:?} or {:?})\n{}", seq, NAMES, NAMES_PREFIX, e);
                     std::process::exit(1);
                 }
                 Err(_) => {
